@@ -8,7 +8,7 @@
 //! and nested) await gates; EVERY order of gate openings. Invariant on every
 //! execution: all log entries of root field i precede all entries of root field i+1.
 
-use agv_common::casecheck::{run_static2, CaseOutcome};
+use agv_common::casecheck::{Target, run_static2, CaseOutcome};
 use agv_common::gen::GenCfg;
 use agv_common::glue::{obs_of, MenuCfg};
 use agv_common::s1::{self, Wd};
@@ -40,7 +40,7 @@ fn part_a(cx: &Cx, refs: &Schema, schema: &s1::S1, gcfg: &GenCfg, flavour: &str,
     let menu = MenuCfg { errors: false, non_finite: false, wrong_kind: false, rich: false };
     let st = explore(
         &ExploreCfg { bounds: [deco, 0, 0, 0], ..Default::default() },
-        &|ch: &mut Chooser| match run_static2(refs, schema, gcfg, ch, menu, Class::Dev(1), None, None) {
+        &|ch: &mut Chooser| match run_static2(refs, &Target::Static(schema), gcfg, ch, menu, Class::Dev(1), None, None) {
             CaseOutcome::Ran(c) => Some(c),
             CaseOutcome::Machinery(m) => {
                 cx.machinery_error(m);
@@ -222,7 +222,7 @@ fn replay(case: &J) -> String {
     if case.get("schedule").is_some() {
         return format!("part b case: rerun the check; recorded log {}", case["log"]);
     }
-    match agv_common::casecheck::replay_fixed(&refs, &schema, case) {
+    match agv_common::casecheck::replay_fixed(&refs, &Target::Static(&schema), case) {
         CaseOutcome::Ran(c) => format!("query {} -> resolver starts {:?}, data {}, expected {}", c.text, starts(&c.log), c.obs.data, c.expected_data_text()),
         _ => "could not replay".into(),
     }
